@@ -12,7 +12,7 @@ import ast
 
 from mlmverif import affine as af
 from mlmverif import cfg as cfgm
-from mlmverif.core import (AnalysisError, Ctx, FuncInfo, is_self_attr, unparse,
+from mlmverif.core import (AnalysisError, parent_map, Ctx, FuncInfo, is_self_attr, unparse,
                            walk_no_nested)
 from mlmverif.props._shard import IO, summary
 from mlmverif.sym import Poly
@@ -39,7 +39,7 @@ ASSUMPTIONS = ['_RangeIterator read-ahead size is >= 1 (max_batch_size >= 1).',
 
 
 def run(ctx: Ctx):
-  for r in (r1, r2, r3, r4, r6, r7, r8, r9, r10, r12, r13, r14):
+  for r in (r1, r2, r3, r4, r6, r7, r8, r9, r10, r12, r13, r14, r15):
     ctx.guard(r)
   from mlmverif.props import c10
   ctx.include('R-C09-11', '"rebuilding a shard from its recorded state yields the same'
@@ -1078,10 +1078,50 @@ def r14(ctx: Ctx):
   ctx.floor(rule, 5, n)
 
 
+def r15(ctx: Ctx):
+  rule = 'R-C09-15'
+  ctx.rule(rule, '"merged sequences iterate and index exactly like their concatenation": the merged view knows its parts by'
+           ' their RECORDED lengths (the cumulative table built once in the constructor) and reads them by random access'
+           ' only: outside the constructor every use of `self._sequences` is an index into it (`self._sequences[i]`),'
+           ' its length, or the accessor property returning it. Chaining the parts\' own iterators (itertools.chain, a'
+           ' for-loop over the parts) makes iteration disagree with indexing and len(): a part whose __iter__ is not its'
+           ' __getitem__ order, or that is longer or shorter when iterated than the recorded length, yields other elements'
+           ' than merged[0..len)')
+  ci = ctx.repo.cls('utils.iter_utils', 'MergedSequences')
+  n = 0
+  for name, fi in ci.methods.items():
+    if name == '__init__':
+      continue
+    pm = None
+    for x in ast.walk(fi.node):
+      if not (is_self_attr(x) and x.attr == '_sequences' and isinstance(x.ctx, ast.Load)):
+        continue
+      if pm is None:
+        pm = parent_map(fi.node)
+      par = pm.get(x)
+      n += 1
+      what = f'MergedSequences.{name}: `self._sequences` is read by random access'
+      ok = ((isinstance(par, ast.Subscript) and par.value is x)
+            or (isinstance(par, ast.Call) and unparse(par.func) == 'len' and par.args and par.args[0] is x)
+            or (isinstance(par, ast.Return) and any('property' in unparse(d) for d in fi.node.decorator_list)))
+      if ok:
+        ctx.ok(rule, fi, what, x)
+      else:
+        ctx.fail(rule, fi, what,
+                 f'`{unparse(par)[:70]}` in MergedSequences.{name} hands the parts themselves on (iteration, not an index'
+                 ' within the recorded length): what the merged view yields is then decided by each part\'s own iterator and'
+                 ' no longer by the length table that __len__ and __getitem__ use', node=par)
+  ctx.floor(rule, 3, n)
+
+
 from mlmverif.selfcheck import B, OK  # noqa: E402
 
 _F = 'chainables/io.py'
 VARIANTS = [
+    B('merged-iter-chains-the-parts', 'utils/iter_utils.py',
+      "  def __iter__(self):\n    return self.slice(slice(None))\n\n\nclass MultiplexIterator", "  def __iter__(self):\n    return itt.chain.from_iterable(self._sequences)\n\n\nclass MultiplexIterator", 'R-C09-15'),
+    OK('merged-iter-by-index', 'utils/iter_utils.py',
+       "  def __iter__(self):\n    return self.slice(slice(None))\n\n\nclass MultiplexIterator", "  def __iter__(self):\n    return (self[i] for i in range(len(self)))\n\n\nclass MultiplexIterator"),
     OK('data-iterator-counts-before-drawing-its-own-element', 'chainables/io.py',
        '      _ = self._draw()\n    return self._draw()', '      _ = self._draw()\n    self._index += 1\n    return next(self._it)'),
     B('data-iterator-counts-own-element-twice', 'chainables/io.py',
